@@ -24,6 +24,8 @@ SAN = {
     # pattern the harness fills the stack with before each operation (rt.cpp dirty_stack)
     "asan0": ["-fsanitize=address,undefined", "-fsanitize-recover=address,undefined", "-O0"],
     "plain": [],
+    # source-based coverage of the library under the generated cases (tools/coverage.sh; exploration aid only)
+    "cov": ["-fprofile-instr-generate", "-fcoverage-mapping"],
 }
 COMMON = ["-g", "-O1", "-fno-omit-frame-pointer", "-fno-builtin-memcpy", "-fno-builtin-memmove",
           "-fno-builtin-strlen", "-D_GNU_SOURCE", "-DQLIBC_VERIF"]
